@@ -51,9 +51,9 @@ CASE_TIMEOUT_S = 5
 # TLC configurations (tuples / records cannot be written in a .cfg: generated module)
 # ------------------------------------------------------------------------------------------------
 def tla_str(s):
-    if '"' in s or "\\" in s or any(ord(c) < 32 or ord(c) > 126 for c in s):
+    if '"' in s or any(ord(c) < 32 or ord(c) > 126 for c in s):
         raise vlib.MachineryError("string not representable in a generated TLA+ module: %r" % s)
-    return '"%s"' % s
+    return '"%s"' % s.replace("\\", "\\\\")
 
 
 def tla_arch(a):
@@ -367,9 +367,25 @@ def run_cases(cases, wdir, tag, chunks=None, solo=False):
     return bad, totals, results, lines, details
 
 
+def refine(b, line):
+    """classification only (the verdict is TLC's): a Faithful/Vfs rejection in which every entry that did not come back
+    through the virtual file system lies in a sub-directory of the archive, while an entry at its top level did come back,
+    gets the place Vfs.subdir"""
+    if b["why"] == "Faithful" and b["op"] == "Vfs":
+        ents, got = line["arch"]["entries"], line["obs"]["vfs"]
+        def nested(n):
+            return "/" in n or "\\" in n
+        failing = [e["name"] for j, e in enumerate(ents) if j >= len(got) or got[j]["st"] != "ok" or got[j]["hex"] != e["blob"]]
+        fine = [e["name"] for e in ents if e["name"] not in failing]
+        if failing and all(nested(n) for n in failing) and any(not nested(n) for n in fine):
+            return "Vfs.subdir"
+    return b["op"]
+
+
 def weight(case):
+    """smaller = the better witness; an empty entry is a less telling witness than one with a few bytes"""
     a, f = case["arch"], case["fault"]
-    return (len(a["entries"]), sum(e["size"] for e in a["entries"]) + sum(len(e["name"]) for e in a["entries"]),
+    return (len(a["entries"]), sum(e["size"] if e["size"] else 9 for e in a["entries"]) + sum(len(e["name"]) for e in a["entries"]),
             len(a["props"]), sum(len(k) + len(v) for k, v in a["props"]), abs(f["delta"]), f["n"])
 
 
@@ -383,8 +399,8 @@ def run(rep, tier, seed, replay):
         "small scope: archives of 0-3 entries with distinct names from {a.sqf, d/b.txt, config.cpp}, sizes {0,1,5}, 0-2 distinct "
         "properties from {prefix=pfx, version=12, x=(empty)}; plus seeded random larger archives (more entries, names and values "
         "longer than the reader's 256-byte scan buffer and than 15 characters, blocks of several KB)",
-        "faults: Truncate(n) for every n < file length (for the larger archives: every n up to the start of the data region and the "
-        "boundary points of every data block and of the checksum), CorruptLen of every entry's data-size field by the listed deltas, "
+        "faults: Truncate(n) for every n < file length (for the larger archives the structural points: around the borders of every "
+        "record, around the NUL behind keys and names, around the size field, and 255..257 bytes into a record), CorruptLen of every entry's data-size field by the listed deltas, "
         "Absent; arbitrary byte corruption outside the size fields is not generated",
         "entry contents are binary (contain 0x00 and 0xFF), pairwise different and never end in 0x00; TLC treats them as opaque "
         "texts (hex of the packed bytes) - byte fidelity is decided by equality of these texts",
@@ -441,31 +457,46 @@ def run(rep, tier, seed, replay):
         for b in bad:
             if b["why"].startswith("MACHINERY"):
                 raise vlib.MachineryError("case void (binding): %s %s" % (b, json.dumps(lines[b["id"]])[:1500]))
+            b["op"] = refine(b, lines[b["id"]])
             groups.setdefault("C17/%s/%s" % (b["why"], b["op"]), []).append(b)
         if len(groups) > 40:
             raise vlib.MachineryError("more than 40 distinct finding keys - something systematic is wrong: %s" % sorted(groups))
         rep.extra["finding_keys"] = {k: len(v) for k, v in sorted(groups.items())}
-        # ---- confirm one minimal witness per key on a fresh run in its own directory
-        witnesses = {}
+        # ---- confirm every key on a fresh single-case run in its own directory.  Behaviour on damaged input partly depends
+        # on stale stack content (the defects are of that kind), so up to three smallest witnesses are tried per key.
+        cands = {}
+        n = 0
         for key, bs in sorted(groups.items()):
-            b = min(bs, key=lambda x: weight(cmap[x["id"]]))
-            w = dict(cmap[b["id"]])
-            w["id"] = "w%d" % len(witnesses)
-            witnesses[key] = w
-        if witnesses:
-            bad2, _, _, lines2, details2 = run_cases(list(witnesses.values()), wdir, "c17confirm", chunks=1, solo=True)
+            seen = set()
+            for b in sorted(bs, key=lambda x: weight(cmap[x["id"]])):
+                sig = json.dumps([cmap[b["id"]]["arch"], cmap[b["id"]]["fault"]], sort_keys=True)
+                if sig in seen:
+                    continue
+                seen.add(sig)
+                w = dict(cmap[b["id"]])
+                w["id"] = "w%d" % n
+                n += 1
+                cands.setdefault(key, []).append(w)
+                if len(cands[key]) == 3:
+                    break
+        if cands:
+            allw = [w for ws in cands.values() for w in ws]
+            bad2, _, _, lines2, details2 = run_cases(allw, wdir, "c17confirm", chunks=1, solo=True)
             again = {}
             for b in bad2:
+                b["op"] = refine(b, lines2[b["id"]])
                 again.setdefault((b["id"], "C17/%s/%s" % (b["why"], b["op"])), b)
-            for key, w in sorted(witnesses.items()):
-                if (w["id"], key) not in again:
-                    rep.notes.append("rejection %s did not repeat on %s" % (key, describe(w)))
+            for key, ws in sorted(cands.items()):
+                hit = [w for w in ws if (w["id"], key) in again]
+                if not hit:
+                    rep.notes.append("rejection %s (x%d) did not repeat on single re-runs of %s" % (key, len(groups[key]), "; ".join(describe(w) for w in ws)))
                     continue
+                w = hit[0]
                 why = key.split("/")[1]
                 what = "%s [%s]: %s -> %s" % (why, key.split("/", 2)[2], describe(w), observed_text(why, lines2[w["id"]], details2[w["id"]]))
                 w2 = {k: v for k, v in w.items() if k != "layout"}
                 rep.finding(key, what, {"property": "C17", "key": key, "cases": [w2], "observed": lines2[w["id"]],
-                                        "verdict": again[(w["id"], key)],
+                                        "verdict": again[(w["id"], key)], "sanitizer": details2[w["id"]].get("sanitizer", ""),
                                         "note": "the archive is re-packed from cases[0].arch (entry bytes are a function of blob id and size) "
                                                 "and damaged by cases[0].fault on replay"})
                 rep.found[key]["count"] += len(groups[key]) - 1
@@ -494,9 +525,10 @@ def random_archive(rng, k, big):
         props.append([key, rng.choice(["", "1", word(rng.choice([5, 40])), word(300) if big else word(30)])])
     rng.shuffle(props)
     names = []
+    sep = rng.choice(["/", "\\"])       # PBO tools write backslashes; both must come back unchanged
     for _ in range(rng.randint(1, 6 if big else 4)):
         depth = rng.randint(0, 2)
-        nm = "/".join([word(rng.choice([1, 4, 12])) for _ in range(depth)] +
+        nm = sep.join([word(rng.choice([1, 4, 12])) for _ in range(depth)] +
                       [word(rng.choice([1, 6, 18, 270 if big and rng.random() < 0.3 else 9])) + rng.choice([".sqf", ".txt", ".paa", ""])])
         if nm not in names:
             names.append(nm)
@@ -544,10 +576,10 @@ def generate(rep, tier, rng):
             cases.append(c)
 
     # ---- 2. a small space replayed completely
-    g = mc("gen_small", emit=True, names=NAMES[:1], maxentries=1, maxprops=1, deltas=deltas, invariants=[], workers=4)
+    g = mc("gen_small", emit=True, names=NAMES[:2], maxentries=1, maxprops=1, deltas=deltas, invariants=[], workers=4)
     if not g.ok:
         raise vlib.MachineryError("generator (small space) failed: %s" % (g.error or g.violated))
-    rep.add_tlc(g, "Pbo_MC generator: complete small space (<=1 entry a.sqf of size 0, 1 or 5, <=1 property), every fault emitted")
+    rep.add_tlc(g, "Pbo_MC generator: complete small space (<=1 entry of {a.sqf, d/b.txt}, sizes {0,1,5}, <=1 property), every fault emitted")
     take(g, "s")
     rep.exhaustive = True
     rep.extra["small_space_cases"] = len(cases)
@@ -564,7 +596,7 @@ def generate(rep, tier, rng):
         a["arch"]["props"] = [list(x) for x in a["arch"]["props"]]
         if len(a["arch"]["entries"]) >= 2:
             strata.setdefault((len(a["arch"]["entries"]), len(a["arch"]["props"])), []).append(a["arch"])
-    per = 2 if quick else 60
+    per = 4 if quick else 60
     chosen = []
     for key in sorted(strata):
         pool = sorted(strata[key], key=lambda x: json.dumps(x, sort_keys=True))
@@ -576,7 +608,7 @@ def generate(rep, tier, rng):
     rep.add_tlc(gs, "Pbo_MC generator: %d sampled archives x every truncation point x corruptions" % len(chosen))
     take(gs, "g")
     # ---- 4. seeded random larger archives: structural truncation points + block boundaries
-    nbig = 4 if quick else 120
+    nbig = 6 if quick else 120
     rnd = [random_archive(rng, k, big=(k % 2 == 0)) for k in range(nbig)]
     gr = mc("gen_random", mode="given", emit=True, given=rnd, allpoints=False, deltas=deltas, invariants=[], workers=vlib.NCPU, timeout_s=3000, xmx="16g")
     if not gr.ok:
